@@ -26,7 +26,8 @@ type optDelta struct {
 	Level      *uint32 `json:"level,omitempty"`
 	Conc       *int    `json:"conc,omitempty"`
 	Legacy     *bool   `json:"legacy,omitempty"`
-	BSRaw      *uint32 `json:"bsraw,omitempty"` // BlockSizeOption with this value, which is none of the four defined sizes
+	BSRaw      *uint32 `json:"bsraw,omitempty"`    // BlockSizeOption with this value, which is none of the four defined sizes
+	LevelRaw   *uint32 `json:"levelraw,omitempty"` // CompressionLevelOption with this value, which is none of the ten defined levels
 }
 
 func (d optDelta) String() string {
@@ -55,6 +56,9 @@ func (d optDelta) String() string {
 	}
 	if d.BSRaw != nil {
 		add("undefined-block-size", *d.BSRaw)
+	}
+	if d.LevelRaw != nil {
+		add("undefined-level", *d.LevelRaw)
 	}
 	return "{" + s + "}"
 }
@@ -147,6 +151,9 @@ func (d *optDelta) options() []lz4.Option {
 	}
 	if d.BSRaw != nil {
 		o = append(o, lz4.BlockSizeOption(lz4.BlockSize(*d.BSRaw)))
+	}
+	if d.LevelRaw != nil {
+		o = append(o, lz4.CompressionLevelOption(lz4.CompressionLevel(*d.LevelRaw)))
 	}
 	return o
 }
@@ -285,7 +292,7 @@ func (r *wRun) run(c c17WCase) {
 		switch op.Op {
 		case "apply":
 			err := w.Apply(op.Set.options()...)
-			if op.Set.BSRaw != nil {
+			if op.Set.BSRaw != nil || op.Set.LevelRaw != nil {
 				// a block size that is none of the four defined ones: whatever Apply answers (it ought to be an error), the calls
 				// that follow must neither hang nor panic; nothing else is judged until Reset
 				class("misuse/apply-undefined-block-size")
@@ -666,7 +673,11 @@ func drawC17W(t *rapid.T) c17WCase {
 			op.Set = drawOptDelta(t)
 			if rapid.IntRange(0, 7).Draw(t, "undefined-bs?") == 0 {
 				op.Set = &optDelta{} // (alone: the options in front of a failing one in the same Apply have taken effect)
-				op.Set.BSRaw = u32p(rapid.SampledFrom([]uint32{8 << 20, 0, 1, 65535, 65537, 4<<20 + 1, 16 << 20, 1 << 31}).Draw(t, "bsraw"))
+				if rapid.IntRange(0, 3).Draw(t, "badlevel?") == 0 {
+					op.Set.LevelRaw = u32p(rapid.SampledFrom([]uint32{1, 3, 511, 513, 1 << 18, 1 << 31}).Draw(t, "levelraw"))
+				} else {
+					op.Set.BSRaw = u32p(rapid.SampledFrom([]uint32{8 << 20, 0, 1, 65535, 65537, 4<<20 + 1, 16 << 20, 1 << 31}).Draw(t, "bsraw"))
+				}
 				state = wsErrored
 			}
 			if state != wsFresh {
